@@ -55,19 +55,19 @@ Section Fuel.
       destruct r; auto. lia.
   Qed.
 
-  Lemma finish_body_ok m t v hs data dr (bs : bstat S) ka :
-    dr <> DUncaught -> bs <> BFuel ->
-    all_ok (fst (finish_body (EvReq m t v hs) data dr bs ka)) = true.
+  Lemma finish_body_ok pre0 data dr (bs : bstat S) ka :
+    all_ok pre0 = true -> dr <> DUncaught -> bs <> BFuel ->
+    all_ok (fst (finish_body pre0 data dr bs ka)) = true.
   Proof.
-    intros Hd Hb. unfold finish_body.
-    assert (P : all_ok (EvReq m t v hs :: body_ev data) = true) by (simpl; apply body_ev_ok).
+    intros H0 Hd Hb. unfold finish_body.
+    assert (P : all_ok (pre0 ++ body_ev data) = true) by (rewrite all_ok_app, H0, body_ev_ok; reflexivity).
     destruct dr; cbn [fst]; try congruence; try (rewrite all_ok_app, P; reflexivity);
       destruct bs; cbn [fst]; try congruence; try (rewrite all_ok_app, P; reflexivity);
       unfold next; destruct ka; cbn [fst]; rewrite all_ok_app, P; reflexivity.
   Qed.
 
-  Lemma finish_body_next m t v hs data dr (bs : bstat S) ka s :
-    snd (finish_body (EvReq m t v hs) data dr bs ka) = Some s -> bs = BDone s.
+  Lemma finish_body_next pre0 data dr (bs : bstat S) ka s :
+    snd (finish_body pre0 data dr bs ka) = Some s -> bs = BDone s.
   Proof.
     unfold finish_body. destruct dr; cbn [snd]; try discriminate;
       destruct bs; cbn [snd]; try discriminate;
@@ -83,16 +83,18 @@ Section Fuel.
       try (split; [reflexivity|discriminate]).
     apply P_regex in U.
     destruct (parse_head hd) as [[[[m t] v] h0]|]; [|split; [reflexivity|discriminate]].
-    destruct (can_keep_alive m v h0) as [ka|]; [|split; [reflexivity|discriminate]].
+    destruct (can_keep_alive (no_keep_alive c) m v h0) as [ka|]; [|split; [reflexivity|discriminate]].
     destruct (d_headers dl h0) as [h act].
     destruct (host_check v h); [|split; [reflexivity|discriminate]].
-    destruct (body_plan (eff_max_body c) h) as [[|n|]|]; [| | |split; [reflexivity|discriminate]].
-    - split; [apply finish_body_ok; discriminate|].
+    assert (RO : all_ok (req_evs m t v h) = true) by (unfold req_evs; destruct (expects_continue h); reflexivity).
+    destruct (body_plan (eff_max_body c) h) as [[|n|]|];
+      [| | |split; [cbn [fst]; rewrite all_ok_app, RO; reflexivity|discriminate]].
+    - split; [apply finish_body_ok; [exact RO|discriminate|discriminate]|].
       intros s H. apply finish_body_next in H. inversion H; subst. exact U.
     - destruct (rd_body ops (chunk_pred c) n t1) as [cs ob] eqn:B.
       pose proof (P_dl act cs) as PD.
       destruct (d_data dl act cs) as [data dr]. cbn [snd] in PD.
-      split; [apply finish_body_ok; [exact PD|destruct ob; discriminate]|].
+      split; [apply finish_body_ok; [exact RO|exact PD|destruct ob; discriminate]|].
       intros s H. apply finish_body_next in H.
       pose proof (P_body (chunk_pred c) n t1) as PB. rewrite B in PB. cbn [snd] in PB.
       destruct ob as [u|]; [|discriminate]. inversion H; subst. specialize (PB s eq_refl). lia.
@@ -101,7 +103,7 @@ Section Fuel.
       destruct (read_chunked ops c _ _ _ t1) as [cs bs]. cbn [snd] in RC.
       pose proof (P_dl act cs) as PD.
       destruct (d_data dl act cs) as [data dr]. cbn [snd] in PD.
-      split; [apply finish_body_ok; [exact PD|intros ->; exact RC]|].
+      split; [apply finish_body_ok; [exact RO|exact PD|intros ->; exact RC]|].
       intros s H. apply finish_body_next in H. subst bs. lia.
   Qed.
 
